@@ -313,6 +313,62 @@ def onxWellformed (d : Def) : Bool :=
 def genericOnxEffective (d : Def) : Bool :=
   (d.onOpen.getD []).all genericStepOk && (d.onClose.getD []).all genericStepOk
 
+/-! ### the network on-X interpreter (`asNetworkOnX`)
+
+The closure `asNetworkOnX` returns runs when the driver opens / closes, i.e. after ALL options —
+the definition's and the user's layered on top — have been applied. An `acquire-priv` step without
+a string `target` reads `d.DefaultDesiredPriv` at that moment: the driver's run-time default, not
+the definition's `default-desired-privilege-level`. -/
+
+inductive OnxAction
+  | write (input : String)
+  | ret
+  | acquire (target : String)
+  | sendCommand (cmd : String)
+  | badValue          -- `ErrBadOption`: the list stops here
+  | skip              -- unknown operation string: nothing happens
+  | panic             -- `operation` is not a string
+  deriving DecidableEq, Repr
+
+/-- one step of `asNetworkOnX` against a driver whose default desired level is `runtimeDefault` -/
+def onxAction (runtimeDefault : String) (s : Step) : OnxAction :=
+  match s.get "operation" with
+  | some (.str op) =>
+    if op == opChannelWrite then
+      match s.get "input" with
+      | some (.str i) => .write i
+      | _ => .badValue
+    else if op == opChannelReturn then .ret
+    else if op == opAcquirePriv then
+      .acquire (match s.get "target" with
+        | some (.str t) => t
+        | _ => runtimeDefault)
+    else if op == opDriverSendCommand then
+      match s.get "command" with
+      | some (.str c) => .sendCommand c
+      | _ => .badValue
+    else .skip
+  | _ => .panic
+
+/-- the whole list, up to and including the first step that returns an error -/
+def runNetworkOnX (runtimeDefault : String) : List Step → List OnxAction
+  | [] => []
+  | s :: t =>
+    let a := onxAction runtimeDefault s
+    if a == .badValue || a == .panic then [a] else a :: runNetworkOnX runtimeDefault t
+
+/-- `DefaultDesiredPriv` of the driver `setDriver` builds: `AsOptions` puts the definition's value
+first, the user's options are appended and applied after it, so a user `WithDefaultDesiredPriv`
+wins -/
+def runtimeDefault (d : Def) (user : Option String) : String := user.getD d.defaultLevel
+
+def acquireTargets (as : List OnxAction) : List String :=
+  as.filterMap fun a => match a with | .acquire t => some t | _ => none
+
+/-- the `target` arguments a step list names explicitly -/
+def explicitTargets (steps : List Step) : List String :=
+  steps.filterMap fun s => match s.get "target" with | some (.str t) => some t | _ => none
+
 /-! ### options (`optionDefinitions.asOptions`) -/
 
 def optionOk (o : OptionDef) : Bool :=
